@@ -7,7 +7,7 @@ import sys
 from .facts import Facts
 from .run import Run, VERIF
 from .inline import load_vocabulary, inline_new_helpers, load_reference
-from .normalize import lower_int_cmp
+from .normalize import lower_int_cmp, desugar_combinators
 
 LEVELS = {"C13": "proof"}
 
@@ -25,14 +25,16 @@ SHARED = {
     "C04": [("C15", ("C15.S1", "C15.S3", "C15.S4", "C15.S5"), None, "cell areas are equal only if the boundary is unprojected with the matching spherical/squashed triangle and an accurate angle helper")],
     "C06": [("C02", ("C02.R2",), None, "IDs keep their meaning only if lookup and geometry use the same quintant/segment relabelling"),
             ("C05", ("C05.R4",), None, "stored IDs keep their meaning only if the bit layout is the documented one"),
-            ("C18", ("C18.D2", "C18.D4"), None, "the face frame and nearest-face choice define which ID a point gets"),
+            ("C18", ("C18.D2", "C18.D3", "C18.D4", "C18.D5"), None, "the face frame, the nearest-face choice and the quintant relabelling define which ID a point gets"),
             ("C17", ("C17.H",), None, "the curve tables define which ID a point gets within a quintant")],
     "C08": [("C20", ("C20.L3",), None, "sibling detection in compact relies on the stride between siblings")],
     "C09": [("C07", ("C07.T2", "C07.T3"), None, "uncompact delegates to cell_to_children, whose fan-out and bit placement decide the descendants")],
     "C11": [("C04", ("C04.R1",), None, "the ring has vertices*n points only if it is built from the length-exact split pentagon"),
             ("C19", ("C19.A5",), None, "the ring stays within a 180-degree window only if each unwrapping step is a whole turn")],
-    "C17": [("C14", ("C14.O",), "a5::core::hilbert::", "the position<->cell maps are total for depths 1..29 only if no index/overflow site in the curve code can fail")],
-    "C20": [("C07", ("C07.T3",), None, "descendants stay inside their ancestor's ID interval only if children are placed two bits per level below the parent's bits")],
+    "C17": [("C14", ("C14.O",), ("a5::core::hilbert::", "a5::core::tiling::"), "the position<->cell maps are total for depths 1..29 only if no index/overflow site in the curve and tiling code can fail")],
+    "C20": [("C07", ("C07.T3", "C07.T4"), None, "descendants stay inside their ancestor's ID interval only if children are placed two bits per level below the parent's bits, contiguously"),
+            ("C14", ("C14.C",), "canonical:cell_to_", "ancestors and descendants keep the layout only if every hierarchy result is a serialize() output (no hand-assembled IDs)")],
+    "C07": [("C14", ("C14.C",), "canonical:cell_to_", "one consistent tree needs canonical IDs from both hierarchy functions")],
 }
 
 
@@ -55,6 +57,7 @@ def main():
     for fx in (ctx.facts, ctx.facts_release):
         if fx is not None:
             lower_int_cmp(fx)
+            desugar_combinators(fx)
     vocab = load_vocabulary(VERIF)
     ctx.inlined = inline_new_helpers(ctx.facts, vocab)
     if ctx.facts_release is not None:
@@ -101,7 +104,7 @@ def main():
                 continue
             if i.kind == "floor" or not any(i.rule == p or i.rule.startswith(p) for p in prefixes):
                 continue
-            if keypart and keypart not in i.key:
+            if keypart and not any(kp in i.key for kp in ((keypart,) if isinstance(keypart, str) else keypart)):
                 continue
             i.reason = "%s [shared necessary condition, from the %s pack: %s]" % (i.reason, pack, why)
             run.instances.append(i)
@@ -110,7 +113,7 @@ def main():
             if any(c[0].startswith(p) for p in prefixes):
                 run.controls.append(c)
         for a in sub.run.assumptions:
-            if keypart and keypart in a:
+            if keypart and any(kp in a for kp in ((keypart,) if isinstance(keypart, str) else keypart)):
                 run.assume(a)
         if n == 0:
             run.bad(prop + ".SHARED", "shared:%s:%s" % (pack, ",".join(prefixes)), "the shared rules produced no instance (fails closed)")
